@@ -527,6 +527,8 @@ type Contract struct {
 	Asserts  []*Clause
 	Fresh    []string // results / places declared fresh (not aliasing any input)
 	MaybeNil []string
+	Inlines  []string          // lemma functions: callees to execute by their bodies although they have contracts
+	Unrolls  map[string]int    // "pkg.Func#loop" -> max iterations (lemma functions: unroll instead of cutting at invariants)
 	Reads    map[string][2]int64 // `reads p[lo:hi]`: the function depends on parameter p only through p[lo:hi]
 	Used     bool
 }
@@ -557,7 +559,7 @@ type ContractSet struct {
 var clauseKeywords = map[string]bool{
 	"func": true, "props": true, "requires": true, "ensures": true, "assigns": true, "loop": true, "alias": true,
 	"inline": true, "trusted": true, "panics": true, "nooverflow": true, "lemma": true, "pure": true, "opaque": true,
-	"extern": true, "assert": true, "fresh": true, "maybenil": true, "package": true, "pred": true, "tagset": true, "aset": true, "reads": true,
+	"extern": true, "assert": true, "fresh": true, "maybenil": true, "package": true, "pred": true, "tagset": true, "aset": true, "reads": true, "inlines": true, "unroll": true,
 }
 
 // assignSets: `//@ aset name := $.f, $.g[0:4]` — a reusable list of assigns items, `$` is the argument.
@@ -872,6 +874,22 @@ func (cs *ContractSet) ReadFile(path, pkgName string, external bool) error {
 				default:
 					return fmt.Errorf("%s: unknown loop clause %q", l.pos, f[1])
 				}
+			case "inlines":
+				cur.Inlines = append(cur.Inlines, strings.Fields(strings.ReplaceAll(rest, ",", " "))...)
+			case "unroll":
+				// unroll pkg.Func <loop> <max>
+				f := strings.Fields(rest)
+				if len(f) != 3 {
+					return fmt.Errorf("%s: unroll pkg.Func <loop ordinal> <max iterations>", l.pos)
+				}
+				n, err := strconv.Atoi(f[2])
+				if err != nil {
+					return err
+				}
+				if cur.Unrolls == nil {
+					cur.Unrolls = map[string]int{}
+				}
+				cur.Unrolls[f[0]+"#"+f[1]] = n
 			case "reads":
 				// reads p[lo:hi]
 				var name string
